@@ -30,7 +30,8 @@ sys.path.insert(0, C.VERIF)
 from gen.progs import gen_program            # noqa: E402
 from gen.frag import gen_frag_program        # noqa: E402
 from gen.hist02 import (gen_history, gen_model_history, gen_k02a_pattern, gen_k02b_pattern,   # noqa: E402
-                        gen_module_program, gen_jitops_program, gen_manyparams_program, gen_sendtwice_program)
+                        gen_module_program, gen_jitops_program, gen_manyparams_program, gen_sendtwice_program,
+                        gen_nested_module_calls)
 
 PID = "C02"
 META = {
@@ -327,6 +328,7 @@ CLASS_NAMES = {
     "K02k": "null_test_on_empty_vector",
     "K02l": "computed_operator_with_nine_or_more_operands_in_native_code",
     "K02m": "list_of_nine_or_more_operands_nested_as_later_operand_in_native_code",
+    "K02n": "conditional_with_constant_test_as_operand_in_recursive_module_procedure",
 }
 CLASS_ALIASES = {"K02a": ("global_defined_and_read_in_one_unit_assigned_later",)}   # K06a: the same defect seen by C06
 IDX_INLINE_RECURSIVE = SWITCH_NAMES.index("STEEL_INLINE_RECURSIVE")
@@ -443,6 +445,21 @@ def long_list_as_later_operand(text):
         for b in app[2:]:
             if isinstance(b, list) and b and b[0] == "list" and len(b) - 1 >= 9:
                 return True
+    return False
+
+
+def const_test_if_operand(text):
+    """K02n: some application has an operand (if (<cmp> <literal> <literal>) ...) - a conditional whose test is
+    constant - or (if #true/#false ...)."""
+    lit = lambda y: isinstance(y, str) and re.fullmatch(r"-?\d+|#t|#f|#true|#false", y) is not None
+
+    def const_if(y):
+        return isinstance(y, list) and len(y) >= 3 and y[0] == "if" and (
+            lit(y[1]) or (isinstance(y[1], list) and len(y[1]) == 3 and all(lit(z) for z in y[1][1:])))
+
+    for app in _applications(read_sexps(text)):
+        if any(const_if(b) for b in app[1:]):
+            return True
     return False
 
 
@@ -661,6 +678,8 @@ def process(ctx, batch, configs, values, stats, known, recs=None):
                     attributed = "K02l"
             if attributed is None and "K02m" in known and jit_split and long_list_as_later_operand(item_text(batch, i)):
                 attributed = "K02m"
+            if attributed is None and "K02n" in known and jit_split and const_test_if_operand(item_text(batch, i)):
+                attributed = "K02n"
             if attributed is None and "K02h" in known and only_dump_differs(ra, rb):
                 attributed = "K02h"
             if attributed is None and "K02f" in known and assigned_parameter_called(pieces[: j + 1]) and \
@@ -1030,6 +1049,22 @@ def run(ctx):
             bm.add(["(require \"%s\")" % path], meta=h["module"], cls={"text": h["module"]})
         batches.append(b)
         batches.append(bm)
+
+    # 4f. module-level recursion with dead branches under constant tests, wrappers, calls nested inside handler
+    #     lambdas (family of finding K02n).  The stream is certain to hit K02n, so it runs once that finding is listed.
+    if "K02n" in known:
+        b = Batch("nested-module-calls")
+        b.nospec = True
+        for _ in range(8 if q else 100):
+            h = gen_nested_module_calls(rng)
+            path = os.path.join(pm_dir, "nested-%s.scm" % hashlib.sha1(h["module"].encode()).hexdigest()[:12])
+            with open(path, "w") as fh:
+                fh.write(h["module"])
+            stats["features"]["nested-module-calls"] = stats["features"].get("nested-module-calls", 0) + 1
+            b.add(["(require \"%s\")" % path], meta=h["module"], cls={"text": h["module"]})
+        batches.append(b)
+    else:
+        ctx.notes.append("stream nested-module-calls not run: finding K02n is not listed in KNOWN_FINDINGS.txt")
 
     # 5. model histories (lowered-core): the Lean model predicts the value under every configuration inside the guard
     batches.append(model_hist_batch(rng, 24 if q else 160, stats, ctx))
